@@ -84,6 +84,7 @@ vc.REPLAYERS['harness'] = replay_harness
 
 # =========================================================================== C10
 CONFIGS['P8'] = cfg(N=2, HEAD=1, CAP=4, L=1, CTX=0, feats=('PLANS',))
+CONFIGS['P6m'] = cfg(N=2, HEAD=0, MANUAL=1, CAP=3, L=1, CTX=0, feats=('PLANS', 'SER'))
 CONFIGS['P9'] = cfg(N=2, HEAD=0, CAP=0, L=1, CTX=0, feats=('PLANS',))
 M_PL = mf('PHASE_REQ', 'REPORT', 'PLAN_EDIT', 'LIFE_EDIT')
 O_PL = og('CORE', 'PLAN', 'REPORT', 'PLAN_REMOVE', 'LOG')
@@ -95,7 +96,7 @@ def check_c10(tier):
     firstlast = probe(V, 'probe_plan_firstlast.cpp', [], 'plan-first-last-unusable', 'first()/last() of the mutable plan (Instance::plan(), control.plan())')
     extra = ['VX_PLAN_FIRSTLAST'] if firstlast else []
     # plan through a real machine
-    specs = [S('P5', 1, M_PL, O_PL), S('P6', 1, M_PL, O_PL), S('P3', 2, M_PL, O_PL), S('P7', 1, M_PL | mf('PAYLOAD'), O_PL | og('PAYLOAD'))]
+    specs = [S('P5', 1, M_PL, O_PL), S('P6', 1, M_PL, O_PL), S('P3', 2, M_PL, O_PL), S('P7', 1, M_PL | mf('PAYLOAD'), O_PL | og('PAYLOAD')), S('P5h', 1, M_PL, O_PL | og('SERIAL', 'REPLAY')), S('P6m', 0, M_PL, O_PL | og('SERIAL', 'MANUAL'))]
     if tier == 'thorough': specs = [S('P5', 2, M_PL, O_PL, share=3), S('P6', 2, M_PL, O_PL, share=3), S('P3', 3, M_PL, O_PL), S('P7', 1, M_PL | mf('PAYLOAD'), O_PL | og('PAYLOAD')), S('P8', 1, M_PL, O_PL, share=3), S('P9', 1, M_PL, O_PL, share=2), S('P2', 1, M_PL | mf('PAYLOAD'), O_PL | og('PAYLOAD', 'MANUAL'), share=2)]
     saved = {}
     for sp in specs:
@@ -179,7 +180,7 @@ def check_c12(tier):
     V = Verdict('C12', tier)
     V.assumptions = ['buffers handed to load() were produced by save() of the same machine type', 'load() only sees the buffer: (saver state, loader state) pairs are covered as every saver state x canonical buffer and every loader state x every buffer']
     O = O_T | og('MANUAL', 'SERIAL', 'PAYLOAD', 'REPLAY', 'COPY')
-    specs = [S('T2s', 2, M_T, O), S('T2a', 2, M_T, O), S('T3s', 1, M_TP, O)]
+    specs = [S('T2s', 2, M_T, O), S('T2a', 2, M_T, O), S('T3s', 1, M_TP, O), S('A2', 1, mf('PHASE_REQ', 'GUARD_CANCEL', 'REPORT', 'PLAN_EDIT', 'PAYLOAD'), og('CORE', 'PLAN', 'REPORT', 'MANUAL', 'SERIAL', 'REPLAY', 'COPY', 'DESTROY', 'PAYLOAD', 'LOG')), S('A1', 0, mf('PHASE_REQ', 'GUARD_CANCEL', 'REPORT', 'PLAN_EDIT', 'PAYLOAD'), og('CORE', 'PLAN', 'REPORT', 'MANUAL', 'SERIAL', 'REPLAY', 'COPY', 'DESTROY', 'PAYLOAD', 'LOG'))]
     combos = SER_COMBOS[:8] if tier == 'quick' else SER_COMBOS
     for i, c in enumerate(combos):
         name = 'T2x%d' % i
@@ -264,7 +265,7 @@ def check_c18(tier):
     V = Verdict('C18', tier)
     V.assumptions = ['histories respect the asserted preconditions of the library (DESIGN.md 4.3)', 'sanitizers: g++ 12 and clang 14 ASan+UBSan (no recovery), clang 14 MSan with the instance storage poisoned before construction; allocation entry points are wrapped/replaced and counted while a library call is on the stack']
     # (config, deviation bound plain build, deviation bound sanitizer builds, menus, operations)
-    base = [('T2', 1, 1, M_TP, O_TALL), ('T5', 1, 1, M_TP, O_TALL), ('T6', 1, 1, M_TP, O_TALL), ('P5', 1, 1, M_P, O_P | og('PLAN_REMOVE', 'COPY', 'DESTROY', 'REACT')), ('P7', 1, 0, M_P0 | mf('PAYLOAD'), O_P | og('PAYLOAD')), ('P3', 2, 1, M_P, O_PALL), ('T3', 2, 2, M_T, O_TALL)]
+    base = [('T2', 1, 1, M_TP, O_TALL), ('T5', 1, 1, M_TP, O_TALL), ('T6', 1, 1, M_TP, O_TALL), ('P5', 1, 1, M_P, O_P | og('PLAN_REMOVE', 'COPY', 'DESTROY', 'REACT')), ('P7', 1, 0, M_P0 | mf('PAYLOAD'), O_P | og('PAYLOAD')), ('P3', 2, 1, M_P, O_PALL), ('T3', 2, 2, M_T, O_TALL), ('A2', 1, 0, mf('PHASE_REQ', 'GUARD_CANCEL', 'REPORT', 'PLAN_EDIT', 'PAYLOAD'), og('CORE', 'PLAN', 'REPORT', 'MANUAL', 'SERIAL', 'REPLAY', 'COPY', 'DESTROY', 'PAYLOAD', 'LOG'))]
     if tier == 'thorough': base = [('T2', 2, 2, M_TP, O_TALL), ('T5', 2, 1, M_TP, O_TALL), ('T6', 2, 2, M_TP, O_TALL), ('T1', 2, 2, M_T, O_TALL), ('P5', 2, 1, M_PG, O_PALL), ('P7', 1, 1, M_P | mf('PAYLOAD'), O_PALL), ('P3', 3, 2, M_P, O_PALL), ('T3', 3, 3, M_T, O_TALL), ('P2', 1, 0, M_P0 | mf('PAYLOAD'), O_P | og('PAYLOAD', 'MANUAL', 'REPLAY')), ('T4', 1, 1, M_T, O_TALL), ('I1', 1, 1, M_T, O_T), ('P4', 0, 0, M_P0 | mf('PAYLOAD'), O_P | og('PAYLOAD'))]
     specs = []
     for (c, d, ds, m, o) in base:
